@@ -201,6 +201,13 @@ func extractHttpStreams(p *pkgs, out string) {
 		mi, si := strings.Index(txt, "setMetadata(reply.Header"), strings.Index(txt, "statFromResponse(reply)")
 		l.printf("/-- Channel.Invoke copies headers/trailers to the call options before it looks at the status -/\n")
 		l.printf("def unaryClientMetadataBeforeStatus : Bool := %v\n", mi >= 0 && si > mi)
+		sel := strings.Index(txt, "case <-respCh: }")
+		tr := -1
+		if sel >= 0 {
+			tr = strings.Index(txt[sel:], "if err != nil { if ctxErr := ctx.Err(); ctxErr != nil {")
+		}
+		l.printf("/-- Channel.Invoke: a body-read error met after the select is reported as the context's status when the context is done -/\n")
+		l.printf("def unaryBodyErrTranslated : Bool := %v\n", sel >= 0 && tr >= 0 && strings.Contains(txt[sel+tr:], "return statusFromContextError(ctxErr)"))
 	}
 	if _, sh := p.methodDecl(mod+"/httpgrpc", "serverStream", "setHeader"); sh == nil {
 		fail("httpgrpc/server.go", "serverStream.setHeader", "method not found")
